@@ -337,6 +337,9 @@ static iwrc _exfile_write(struct IWFS_EXT *f, off_t off, const void *buf, size_t
   if (impl->maxoff && (off + siz > impl->maxoff)) {
     return IWFS_ERROR_MAXOFF;
   }
+  if (!(impl->omode & IWFS_OWRITE)) { // the windows of a read-only file are PROT_READ mappings
+    return IW_ERROR_READONLY;
+  }
   iwrc rc = _exfile_rlock(f);
   RCRET(rc);
   if (end > impl->fsize) {
@@ -449,6 +452,9 @@ static iwrc _exfile_state(struct IWFS_EXT *f, IWFS_EXT_STATE *state) {
 }
 
 static iwrc _exfile_copy(struct IWFS_EXT *f, off_t off, size_t siz, off_t noff) {
+  if (f->impl && !(f->impl->omode & IWFS_OWRITE)) { // the windows of a read-only file are PROT_READ mappings
+    return IW_ERROR_READONLY;
+  }
   iwrc rc = _exfile_rlock(f);
   RCRET(rc);
   EXF *impl = f->impl;
